@@ -105,6 +105,8 @@ type area struct {
 	cells   map[string]string      // pointer types modelled as the value they point to (never nil): "*T" -> "T"
 	errorf  string                 // fmt.Errorf(format, ...) as an error VALUE: (errorf format)
 	ints    map[string]bool        // further integer-like types (compared with =?)
+	pkgs    map[string]bool        // import names under which other files call the area's translated functions
+	mapget  map[string]string      // Go map type -> total index function (m[k], zero value on a miss): (get m k)
 }
 
 type recField struct {
@@ -233,6 +235,7 @@ func init() {
 		section: []string{
 			"Section Gen.",
 			"Variable kind : Enum.kind.               (* the integer kind underlying T *)",
+			"Variable kind_tv : Enum.kind.            (* the integer kind of TV *)",
 			"Variable vmap : list (string * Z).       (* T.ValueMap() *)",
 			"Variable vals : list Z.                  (* T.Values() *)",
 			"",
@@ -256,6 +259,7 @@ func init() {
 			"T.ValueMap": {coq: "vmap", results: []string{"map[string]T"}},
 			"T.Values":   {coq: "vals", results: []string{"[]T"}},
 			"T":          {coq: "EnumPrims.conv kind", args: []int{0}, results: []string{"T"}},
+			"TV":         {coq: "EnumPrims.conv kind_tv", args: []int{0}, results: []string{"TV"}},
 		},
 		errorf: "EnumPrims.errorf",
 		nilPan: "PNilDeref",
@@ -281,7 +285,9 @@ func init() {
 			{file: "internal/transfer/transfer.go", name: "splitCamelTokensASCII"},
 			{file: "internal/transfer/transfer.go", name: "ToCamelCase"},
 			{file: "internal/transfer/transfer.go", name: "ToCamelCaseGO"},
+			{file: "internal/mapper/match.go", name: "smartMatch"},
 		},
+		pkgs: map[string]bool{"transfer": true},
 		types: map[string]string{
 			"int": "Z", "bool": "bool", "string": "string", "byte": "ascii", "[]byte": "string", "[]string": "(list string)",
 		},
@@ -291,6 +297,47 @@ func init() {
 			"strings.ToLower": {coq: "Str.lower", args: []int{0}, results: []string{"string"}},
 			"strings.Split":   {coq: "go_split", args: []int{0, 1}, results: []string{"[]string"}},
 			"strings.Join":    {coq: "Str.join", args: []int{1, 0}, results: []string{"string"}},
+		},
+		nilPan: "PNilDeref",
+	}
+}
+
+func init() {
+	areas["filename"] = &area{
+		name:   "filename",
+		module: "FileNameGen",
+		header: []string{
+			"From Coq Require Import ZArith List Bool String Ascii.",
+			"From Shoot Require Import Base.Str Model.Cli Bridge.GoPrims Bridge.CliPrims.",
+		},
+		world: "unit",
+		funcs: []fnSpec{
+			{file: "internal/shoot/common.go", name: "FixPath"},
+			{file: "internal/shoot/generatorbase.go", name: "GeneratorBase.fileName"},
+		},
+		types: map[string]string{
+			"int": "Z", "bool": "bool", "string": "string",
+			"*GeneratorBase": "CliPrims.gbase", "*CommonFlags": "CliPrims.gflags", "map[string]string": "(list (string * string))",
+		},
+		ptrs: map[string]bool{},
+		records: map[string]map[string]recField{
+			"*GeneratorBase": {
+				"subCmd":       {"CliPrims.g_sub", "", "string"},
+				"commonFlags":  {"CliPrims.g_flags", "", "*CommonFlags"},
+				"allInOneFile": {"CliPrims.g_aio", "", "string"},
+				"fileNameMap":  {"CliPrims.g_fmap", "", "map[string]string"},
+			},
+			"*CommonFlags": {
+				"FileName": {"CliPrims.f_file", "", "string"},
+			},
+		},
+		mapget: map[string]string{"map[string]string": "CliPrims.map_get"},
+		prims: map[string]prim{
+			"strings.TrimSuffix": {coq: "go_trim_suffix", args: []int{1, 0}, results: []string{"string"}},
+			"strings.ToLower":    {coq: "Cli.lower", args: []int{0}, results: []string{"string"}},
+			"strings.HasPrefix":  {coq: "Cli.has_prefix", args: []int{1, 0}, results: []string{"bool"}},
+			"filepath.IsAbs":     {coq: "CliPrims.is_abs", args: []int{0}, results: []string{"bool"}},
+			"ast.IsExported":     {coq: "Cli.is_exported", args: []int{0}, results: []string{"bool"}},
 		},
 		nilPan: "PNilDeref",
 	}
@@ -433,6 +480,15 @@ func checkName(n *ast.Ident) string {
 	return s
 }
 
+func isPrintable(s string) bool {
+	for _, c := range s {
+		if c < 32 || c > 126 {
+			return false
+		}
+	}
+	return true
+}
+
 func isDigits(s string) bool {
 	for _, c := range s {
 		if c < '0' || c > '9' {
@@ -445,7 +501,8 @@ func isDigits(s string) bool {
 // --------------------------------------------------------------- translator
 
 type translator struct {
-	consts map[string]string // package-level integer constants of the file: name -> value
+	consts map[string]string // package-level constants: integer ones of the file, string ones of the package: name -> term
+	strConsts map[string]bool
 	reassigned map[string]bool // variables of the current function assigned after their declaration
 	a     *area
 	out   []string // top-level definitions, in order
@@ -531,6 +588,27 @@ type signature struct {
 	ids     int // leading type-id parameters
 }
 
+// the translated function a call refers to: F(...) or pkg.F(...) for a package of the area
+func (t *translator) sigOf(c *ast.CallExpr, ev *env) (string, *signature) {
+	fun := c.Fun
+	if ix, isIx := fun.(*ast.IndexExpr); isIx {
+		fun = ix.X
+	}
+	switch f := fun.(type) {
+	case *ast.Ident:
+		if sg, ok := t.sigs[f.Name]; ok && ev.index[f.Name] == nil {
+			return f.Name, sg
+		}
+	case *ast.SelectorExpr:
+		if id, ok := f.X.(*ast.Ident); ok && t.a.pkgs[id.Name] && ev.index[id.Name] == nil {
+			if sg, isFn := t.sigs[f.Sel.Name]; isFn {
+				return f.Sel.Name, sg
+			}
+		}
+	}
+	return "", nil
+}
+
 // reflect.TypeOf((*T)(nil)) for a type parameter T passed as a type id
 func (t *translator) typeIdOf(c *ast.CallExpr) (string, bool) {
 	if exprKey(c.Fun) != "reflect.TypeOf" || len(c.Args) != 1 {
@@ -579,6 +657,60 @@ func convTarget(c *ast.CallExpr) string {
 	return ""
 }
 
+// fmt.Sprintf(format, args...) where the format is a literal made of text and %s verbs and
+// every argument is a string: the concatenation
+func (t *translator) sprintf(c *ast.CallExpr, ev *env) string {
+	lit, ok := c.Args[0].(*ast.BasicLit)
+	if !ok || lit.Kind != token.STRING {
+		unsup(c, "fmt.Sprintf whose format is not a string literal")
+	}
+	f, err := strconv.Unquote(lit.Value)
+	if err != nil {
+		unsup(lit, "format %s", lit.Value)
+	}
+	var parts []string
+	text := ""
+	arg := 1
+	flush := func() {
+		if text != "" {
+			parts = append(parts, t.pure(&ast.BasicLit{Kind: token.STRING, Value: strconv.Quote(text)}, ev, "string"))
+			text = ""
+		}
+	}
+	for i := 0; i < len(f); i++ {
+		if f[i] != '%' {
+			text += string(f[i])
+			continue
+		}
+		if i+1 >= len(f) || f[i+1] != 's' {
+			unsup(lit, "format verb other than %%s")
+		}
+		i++
+		if arg >= len(c.Args) {
+			unsup(c, "fmt.Sprintf with too few arguments")
+		}
+		if at := t.typeOf(c.Args[arg], ev); at != "string" {
+			unsup(c.Args[arg], "%%s argument of type %s", at)
+		}
+		flush()
+		parts = append(parts, t.pure(c.Args[arg], ev, "string"))
+		arg++
+	}
+	flush()
+	if arg != len(c.Args) {
+		unsup(c, "fmt.Sprintf with too many arguments")
+	}
+	if len(parts) == 0 {
+		return "\"\"%string"
+	}
+	// right-nested: a ++ (b ++ (c ++ d))
+	r := parts[len(parts)-1]
+	for i := len(parts) - 2; i >= 0; i-- {
+		r = "(" + parts[i] + " ++ " + r + ")%string"
+	}
+	return r
+}
+
 // the value of a byte expression as an integer term (byte arithmetic is done in Z and reduced mod 256 at the end)
 func (t *translator) byteZ(e ast.Expr, ev *env, sub func(ast.Expr, string) string) string {
 	switch x := e.(type) {
@@ -618,6 +750,9 @@ func (t *translator) typeOf(e ast.Expr, ev *env) string {
 			return v.typ
 		}
 		if _, ok := t.consts[x.Name]; ok {
+			if t.strConsts[x.Name] {
+				return "string"
+			}
 			return "int"
 		}
 		unsup(x, "identifier %s (not a parameter, local variable or integer constant of the file)", x.Name)
@@ -669,6 +804,9 @@ func (t *translator) typeOf(e ast.Expr, ev *env) string {
 		unsup(x, "field %s of type %s (not in the field table)", x.Sel.Name, xt)
 	case *ast.IndexExpr:
 		xt := t.typeOf(x.X, ev)
+		if _, isMap := t.a.mapget[xt]; isMap {
+			return xt[strings.Index(xt, "]")+1:]
+		}
 		if isStr(xt) {
 			return "byte"
 		}
@@ -698,10 +836,8 @@ func (t *translator) typeOf(e ast.Expr, ev *env) string {
 		if ct := convTarget(x); ct != "" {
 			return ct
 		}
-		if id, ok := x.Fun.(*ast.Ident); ok {
-			if sg, isFn := t.sigs[id.Name]; isFn && sg.pure && ev.index[id.Name] == nil {
-				return sg.results[0]
-			}
+		if _, sg := t.sigOf(x, ev); sg != nil && len(sg.results) == 1 {
+			return sg.results[0]
 		}
 		if id, ok := x.Fun.(*ast.Ident); ok && id.Name == "any" && len(x.Args) == 1 {
 			return t.typeOf(x.Args[0], ev)
@@ -711,6 +847,9 @@ func (t *translator) typeOf(e ast.Expr, ev *env) string {
 		}
 		if exprKey(x.Fun) == "fmt.Errorf" && t.a.errorf != "" {
 			return "error"
+		}
+		if exprKey(x.Fun) == "fmt.Sprintf" {
+			return "string"
 		}
 		if c, ok := t.callableOf(x, ev); ok {
 			if c.result == "" || c.mutate {
@@ -817,14 +956,19 @@ func (t *translator) primOf(c *ast.CallExpr, ev *env) (prim, string) {
 func (t *translator) mayPanic(e ast.Expr, ev *env) bool {
 	found := false
 	ast.Inspect(e, func(n ast.Node) bool {
-		if _, ok := n.(*ast.IndexExpr); ok {
-			found = true
+		if ix, ok := n.(*ast.IndexExpr); ok {
+			if _, isMap := t.a.mapget[t.typeOfSafe(ix.X, ev)]; !isMap {
+				found = true
+			}
 		}
 		if _, ok := n.(*ast.SliceExpr); ok {
 			found = true
 		}
 		if c, ok := n.(*ast.CallExpr); ok {
 			if cl, isCallable := t.callableOf(c, ev); isCallable && cl.nilable {
+				found = true
+			}
+			if _, sg := t.sigOf(c, ev); sg != nil && !sg.pure {
 				found = true
 			}
 		}
@@ -930,6 +1074,13 @@ func (t *translator) pure(e ast.Expr, ev *env, want string) string {
 			unsup(x, "internal: dereference in a pure position")
 		}
 		return "(" + f.coq + " " + t.pure(x.X, ev, xt) + ")"
+	case *ast.IndexExpr:
+		xt := t.typeOf(x.X, ev)
+		get, isMap := t.a.mapget[xt]
+		if !isMap {
+			unsup(x, "internal: index expression in a pure position")
+		}
+		return "(" + get + " " + t.pure(x.X, ev, xt) + " " + t.pure(x.Index, ev, "") + ")"
 	case *ast.StarExpr:
 		t.typeOf(x, ev) // a record pointer or a cell: *p is the value itself
 		return t.pure(x.X, ev, "")
@@ -974,6 +1125,9 @@ func (t *translator) pure(e ast.Expr, ev *env, want string) string {
 		}
 		if name, ok := t.typeIdOf(x); ok {
 			return name
+		}
+		if exprKey(x.Fun) == "fmt.Sprintf" && len(x.Args) >= 1 {
+			return t.sprintf(x, ev)
 		}
 		if exprKey(x.Fun) == "fmt.Errorf" && t.a.errorf != "" && len(x.Args) >= 1 {
 			lit, isLit := x.Args[0].(*ast.BasicLit)
@@ -1236,6 +1390,26 @@ func (t *translator) exprK(e ast.Expr, ev *env, want string, k func(string) stri
 		})
 	}
 	if c, ok := e.(*ast.CallExpr); ok {
+		if name, sg := t.sigOf(c, ev); sg != nil && !sg.pure {
+			// F(args) as a value: its outcome is propagated
+			if sg.nouts > 0 || sg.ids > 0 || len(sg.results) != 1 || len(c.Args) != len(sg.params) {
+				unsup(c, "call of %s inside an expression", name)
+			}
+			terms := make([]string, len(c.Args))
+			var build func(i int) string
+			build = func(i int) string {
+				if i == len(c.Args) {
+					v, pv := t.fresh("v"), t.fresh("p")
+					return "(match " + name + " " + strings.Join(terms, " ") + " w with\n | (Returned " + v + ", w) => " + k(v) +
+						"\n | (Panicked " + pv + ", w) => (Panicked " + pv + ", w)\n | (OutOfFuel, w) => (OutOfFuel, w)\n end)"
+				}
+				return t.exprK(c.Args[i], ev, sg.params[i], func(a string) string {
+					terms[i] = a
+					return build(i + 1)
+				})
+			}
+			return build(0)
+		}
 		// a call whose arguments can panic: the arguments first (left to right), then the call on their values
 		if rebuilt, okc := t.callWithValues(c, ev, k); okc {
 			return rebuilt
@@ -1857,16 +2031,8 @@ func (t *translator) assign(x *ast.AssignStmt, ev *env, cont func(*env) string) 
 	// x := F(args) for a function of the area translated before
 	if len(x.Rhs) == 1 {
 		if c, ok := x.Rhs[0].(*ast.CallExpr); ok {
-			fun := c.Fun
-			if ix, isIx := fun.(*ast.IndexExpr); isIx {
-				fun = ix.X // F[T](...): the instantiation is the one of this translation
-			}
-			if fid, isId := fun.(*ast.Ident); isId {
-				if sg, isFn := t.sigs[fid.Name]; isFn {
-					if _, local := ev.index[fid.Name]; !local {
-						return t.callTranslated(x, c, fid.Name, sg, lhs, define, declare, ev, cont)
-					}
-				}
+			if name, sg := t.sigOf(c, ev); sg != nil && !sg.pure {
+				return t.callTranslated(x, c, name, sg, lhs, define, declare, ev, cont)
 			}
 		}
 	}
@@ -2845,6 +3011,29 @@ func main() {
 				files[fs.file] = f
 			}
 			t.consts = map[string]string{}
+			t.strConsts = map[string]bool{}
+			t.dir = filepath.Dir(filepath.Join(*repo, fs.file))
+			var declFiles []*ast.File
+			declFiles = append(declFiles, t.pkgFiles()...)
+			for _, pf := range declFiles {
+				for _, d := range pf.Decls {
+					if gd, isG := d.(*ast.GenDecl); isG && gd.Tok == token.CONST {
+						for _, sp := range gd.Specs {
+							vs := sp.(*ast.ValueSpec)
+							for i, n := range vs.Names {
+								if i < len(vs.Values) {
+									if l, isLit := vs.Values[i].(*ast.BasicLit); isLit && l.Kind == token.STRING {
+										if v, err := strconv.Unquote(l.Value); err == nil && isPrintable(v) {
+											t.consts[n.Name] = "\"" + strings.ReplaceAll(v, "\"", "\"\"") + "\"%string"
+											t.strConsts[n.Name] = true
+										}
+									}
+								}
+							}
+						}
+					}
+				}
+			}
 			for _, d := range f.Decls {
 				if gd, isG := d.(*ast.GenDecl); isG && gd.Tok == token.CONST {
 					for _, sp := range gd.Specs {
